@@ -183,6 +183,49 @@ def run(ctx):
                           "BinnedIndex::min_offset returns the first bin found on the path to the root instead of a minimum: a long record "
                           "stored in an ancestor bin that starts earlier in the file is pruned from region queries", f.loc())
 
+
+    ctx.rule("C04.R10", "completeness of the filter loop: the sync region queries (bam, bcf, sam, vcf `query::next_record`) report the end of the "
+                        "query (Ok(0)) only when the chunk reader is exhausted (the 0 arm of the switch on the inner read count), or behind a "
+                        "comparison with the region's end; 'the first record that does not intersect after one that did' is NOT past the "
+                        "region when a long record precedes short ones")
+    n10 = 0
+    for k10, f10 in sorted(fb.fns.items()):
+        if not f10.blocks or not re.search(r"^noodles_(bam|bcf|sam|vcf)::io::reader::query::next_record$", k10):
+            continue
+        n10 += 1
+        ctx.saw_fn(f10)
+        is_read = R.mk_pred(r"::read_record$|::read_record_buf$|::read_line$")
+        eof_edges = set()
+        for b, blk in enumerate(f10.blocks):
+            t = blk["t"]
+            if t[0] == "sw" and not blk.get("cu") and R.derives_from_call(f10, t[1], is_read):
+                for v, tg in t[2]:
+                    if v == 0:
+                        eof_edges.add((b, tg))
+        end_guards = set()
+        for b, blk in enumerate(f10.blocks):
+            t = blk["t"]
+            if t[0] == "sw" and not blk.get("cu") and R.derives_from_call(f10, t[1], R.mk_pred(r"interval::Interval::end$|region::Region::end$")):
+                for _v, tg in t[2]:
+                    end_guards.add((b, tg))
+                end_guards.add((b, t[3]))
+        zero_exits = [bi for bi, blk in enumerate(f10.blocks) if not blk.get("cu") for st in blk["s"]
+                      if st[0] == "=" and st[1][0] == 0 and not st[1][1] and st[2][0] == "agg" and st[2][3] == "Ok" and st[2][4]
+                      and C.eval_const(f10, st[2][4][0]) == 0]
+        if not eof_edges or not zero_exits:
+            ctx.violation("C04.R10", "C04.R10/ANCHOR-MISSING/%s/eof-arm" % k10, "%s: no 0 arm on the inner read count / no Ok(0) exit found" % k10, f10.loc())
+            continue
+        reach = C.reachable(f10, 0, removed_edges=eof_edges | end_guards)
+        bad = [b for b in zero_exits if b in reach]
+        if bad:
+            ctx.violation("C04.R10", "C04.R10/query-ends-before-exhaustion/" + k10,
+                          "%s can return Ok(0) on a path that does not pass the 0 arm of the inner read count: the query ends while the chunk "
+                          "reader still holds records, so every later intersecting record (a short record after a long one that ended the "
+                          "'within' run) is omitted" % k10, f10.loc(bad[0]))
+        else:
+            ctx.ok("C04.R10", k10, "Ok(0) only behind the exhausted chunk reader", f10.loc(zero_exits[0]))
+    ctx.floor("C04.R10", "sync query::next_record filter loops", n10, 4)
+
     ctx.rule("C04.R7", "unmapped query: the is_unmapped() test is applied to every record (filter_map / try_filter_map / from_fn loop), never "
                        "by a prefix combinator (skip_while, take_while, find, ...) that stops testing after the first match")
     PREFIX = re.compile(r"::(skip_while|take_while|map_while|try_skip_while|try_take_while|find|find_map|position|skip|take|take_until|skip_until)$")
